@@ -60,11 +60,14 @@ def plan(tier):
     mods, skipped, reduced = [], [], []
     k = [0]
 
-    def add(pl, owner, attr, extra=None):
+    def add(pl, owner, attr, extra=None, words=None):
         # two methods (static + self); where that collides (a literal shared by both), the same placement with one method
         for meths in (U.METHODS, ("im",)):
             k[0] += 1
             m = {"k": k[0], "placement": tuple(pl), "owner": owner, "attr": tuple(attr), "methods": tuple(meths), "extra": extra}
+            if words:
+                m["words"] = words
+                U.register_words(m)
             if not U.collides(m):
                 mods.append(m)
                 return
@@ -97,6 +100,11 @@ def plan(tier):
                     add(pl, owner, NONE, "nested")
         bound = {"abi_rename_placements": len(placements), "owners": list(U.OWNERS), "attr_variants": len(attrs),
                  "product": "placements x owners x attr variants (full)"}
+    # fixed "historical" names that are reserved words of a target language (literal on the type and on both methods)
+    U.WORD_OWNER.clear()
+    for w in U.word_triples():
+        add(("-", "L", "-", "L"), "opaque", NONE, words=w)
+    bound["reserved_word_literals"] = list(U.WORDS)
     bound["methods_per_type"] = "sm (static) + im (self); im only where a literal shared by both methods would collide (%d modules)" % len(reduced)
     bound["attr_variant_list"] = [U.attr_text(a) for a in attrs]
     bound["patterns"] = U.ABI_PATTERN
@@ -331,7 +339,8 @@ def judge(wd, name, mods, keep_snippets=False):
             allref |= s
         allref = {s for s in allref if not U.is_runtime(s)}
         # guard: an exported symbol mentioned anywhere in the output must have been seen by the structured extractor
-        loose = {s for s in syms if s in idents[b] or ("_" + s) in idents[b]}
+        # (a symbol that is itself a keyword of the target language shows up as an identifier everywhere: not informative)
+        loose = {s for s in syms if (s in idents[b] or ("_" + s) in idents[b]) and s not in U.WORD_OWNER}
         if loose - allref:
             raise MachineryError("UNDECIDED: %s output mentions exported symbol(s) %s outside every shape the extractor understands" % (
                 b, sorted(loose - allref)[:5]))
@@ -457,7 +466,7 @@ def report(rep, groups, confirmed):
         c = confirmed.get(fail_sig(f0), f0)
         m = f0["m"]
         witness = {"module": {"k": m["k"], "placement": list(m["placement"]), "owner": m["owner"], "attr": list(m["attr"]),
-                              "methods": list(m["methods"])} if m else None,
+                              "methods": list(m["methods"]), "extra": m.get("extra"), "words": m.get("words")} if m else None,
                    "module_rs": U.module_src(m) if m else None, "backend": f0["backend"], "kind": f0["kind"], "role": f0["role"],
                    "expected": f0.get("expected"), "symbols": f0["symbols"], "exported_by_module": f0.get("exported_by_module"),
                    "referenced_by_backend": f0.get("referenced_by_backend"), "exported_not_referenced": f0.get("exported_not_referenced"),
@@ -585,7 +594,11 @@ def replay(path):
             return run("quick")
         md = wit["module"]
         m = {"k": md["k"], "placement": tuple(md["placement"]), "owner": md["owner"], "attr": tuple(md["attr"]),
-             "methods": tuple(md.get("methods", U.METHODS))}
+             "methods": tuple(md.get("methods", U.METHODS)), "extra": md.get("extra")}
+        if md.get("words"):
+            m["words"] = md["words"]
+            U.WORD_OWNER.clear()
+            U.register_words(m)
         print(U.module_src(m))
         r = judge(wd, "replay", [m], keep_snippets=True)
         same = [f for f in r["fails"] if f["backend"] == wit["backend"] and f["kind"] == wit["kind"] and f["role"] == wit["role"]]
